@@ -16,6 +16,10 @@ import (
 	<% } %>
 */
 func ContentFor(name string, help hctx.HelperContext) {
+	if help == nil {
+		return
+	}
+
 	help.Set("contentFor:"+name, func(data hctx.Map) (template.HTML, error) {
 		hctx := help.New()
 		for k, v := range data {
